@@ -63,7 +63,8 @@ fn cmd() -> BoxedStrategy<Cmd> {
         1 => Just(b"%!PS-Adobe-3.0\n\x03\x01\x47\x00".to_vec()),
     ];
     let key = proptest::collection::vec(prop_oneof![b'a'..=b'z', Just(b'-')], 1..12).prop_map(|v| String::from_utf8(v).unwrap());
-    let key2 = prop_oneof![3 => proptest::sample::select(vec!["copies", "sides", "media", "print-quality"]).prop_map(|s| s.to_string()), 2 => key];
+    let key2 = prop_oneof![3 => proptest::sample::select(vec!["copies", "sides", "media", "print-quality"]).prop_map(|s| s.to_string()), 2 => key,
+        2 => proptest::sample::select(vec!["document-format", "job-name", "compression", "document-name", "requesting-user-name", "printer-uri", "job-priority", "ipp-attribute-fidelity"]).prop_map(|s| s.to_string())];
     let headers = proptest::collection::vec((proptest::collection::vec(b'a'..=b'z', 1..8).prop_map(|v| format!("x-{}", String::from_utf8(v).unwrap())), proptest::collection::vec(0x21u8..0x7f, 0..12).prop_map(|v| String::from_utf8(v).unwrap())), 0..=2);
     let reasons = prop_oneof![
         2 => Just(None),
